@@ -58,10 +58,10 @@ class FakeS3(object):
         finally:
             self._owner = old
 
-    def cassette(self, tag, bucket='bkt', **kw):
+    def cassette(self, tag, bucket='bkt', cls=None, **kw):
         from playback.tape_cassettes.s3.s3_tape_cassette import S3TapeCassette
         with self.owner(tag):
-            return S3TapeCassette(bucket, **kw)
+            return (cls or S3TapeCassette)(bucket, **kw)
 
     # --- store -------------------------------------------------------------------------------------
     def _b(self, bucket):
